@@ -89,6 +89,9 @@ def generate(rng, tier):
             steps.append({"lines": lines, "offered": rng.choice([0, 1, 2]), "file": render(lines, ks, rng).encode().hex(),
                           "keep_mtime": rng.random() < 0.6})
         cases.append({"kind": "hshist", "steps": steps})
+    # revocation and enrolment with the modification time never moving forward (cp -p, rsync -t, a restore)
+    hist = [([3], 0, False), ([4], 0, True), ([4], 1, True), ([3, 4], 0, False), ([1], 1, True), ([5, 1], 2, True)]
+    cases.append({"kind": "hshist", "steps": [{"lines": l, "offered": o, "file": render(l, ks, rng).encode().hex(), "keep_mtime": k} for l, o, k in hist]})
     return cases
 
 
